@@ -62,6 +62,8 @@ def err_class(e: BaseException) -> str:
         return "ValueError"
     if isinstance(e, TypeError):
         return "TypeError"
+    if isinstance(e, AttributeError):
+        return "AttributeError"
     return "Other:" + type(e).__name__
 
 
